@@ -324,9 +324,12 @@ for _pid, _thms, _text in [
     ("C02", ["GoSup.Props.C02.c02_no_panic"],
      "Invariant proof that the panic transition (send on the closed error channel) is unreachable for any runnable behaviour; prompt "
      "and bounded termination are checked on traces by the Lean statement and the model acceptor (liveness theorems: see DESIGN.md)."),
-    ("C03", ["GoSup.Props.C03.c03_no_launch_after_abort", "GoSup.Props.C03.c03_invoke_once", "GoSup.Props.C03.c03_gate_exit"],
-     "Step theorems over the supervisor LTS for every state and action: a gate is left towards the rest of the loop only by a true "
-     "readiness poll or with the context cancelled; after an abort nothing is launched; Run is invoked from a state left for good."),
+    ("C03", ["GoSup.Props.C03.c03_gated", "GoSup.Props.C03.c03_no_launch_after_abort", "GoSup.Props.C03.c03_invoke_once",
+             "GoSup.Props.C03.c03_gate_exit"],
+     "Invariant proof over the supervisor LTS for any number of runnables and any schedule: when a runnable's Run has been invoked, "
+     "every Stateable registered before it has answered a readiness poll with true, or the context is cancelled (c03_gated); step "
+     "theorems for every state and action: a gate is left towards the rest of the loop only by a true poll or with the context "
+     "cancelled; after an abort nothing is launched; Run is invoked from a state left for good."),
     ("C04", ["GoSup.Props.C04.c04_result_is_a_returned_error", "GoSup.Props.C04.c04_nil_without_failure",
              "GoSup.Props.C04.c04_hup_and_unknown_signals_keep_reaping"],
      "Invariant proof over the supervisor LTS: every error value in flight or returned by Run() was returned by some runnable's "
